@@ -1,29 +1,9 @@
-import AlphaG.Driver.Trg
+import Driver.Loop
+import AlphaG.Driver.C06
 /-
-Line protocol driver: one request per input line, one canonical answer per output line.
-Handlers live in `AlphaG/Driver/*.lean`; each returns `none` for commands it does not own.
+Full model driver: every handler of `AlphaG/Driver/*.lean`. Handlers return `none` for
+commands they do not own.
 -/
-open AlphaG
-
-def handlers : List (String → List String → Option String) :=
-  [ AlphaG.Driver.Trg.handle ]
-
-def answer (line : String) : String :=
-  match line.trimAscii.toString.splitOn " " with
-  | [] => "bad-request"
-  | cmd :: args =>
-    match handlers.findSome? (fun h => h cmd args) with
-    | some out => out
-    | none => "bad-request"
-
-partial def loop (hin : IO.FS.Stream) (hout : IO.FS.Stream) : IO Unit := do
-  let line ← hin.getLine
-  if line.isEmpty then return ()
-  hout.putStrLn (answer line)
-  loop hin hout
-
-def main : IO Unit := do
-  let hin ← IO.getStdin
-  let hout ← IO.getStdout
-  loop hin hout
-  hout.flush
+def main : IO Unit := Driver.run [
+  AlphaG.Driver.C06.handle
+]
